@@ -40,6 +40,9 @@ func runC04(c *an.Ctx) {
 	r046(c, "R04.6")
 	r034(c, "R04.7")
 	r062filters(c, "R04.8")
+	// a subscriber that is registered keeps receiving: the bus never drops a live listener from its registry
+	registryRebuild(c, "R04.9")
+	c.Min("R04.9", 1)
 	c.Min("R04.7", 5)
 	c.Min("R04.8", 2)
 	c.Min("R04.1", 6)
@@ -50,8 +53,9 @@ func runC04(c *an.Ctx) {
 	c.Min("R04.6", 2)
 }
 
-func r041(c *an.Ctx) {
-	const rule = "R04.1"
+func r041(c *an.Ctx) { r041as(c, "R04.1") }
+
+func r041as(c *an.Ctx, rule string) {
 	for _, t := range [][2]string{{"Value", "set"}, {"Collection", "Update"}, {"Collection", "Delete"}} {
 		fn := mustFunc(c, rule, resPkg, t[0], t[1])
 		if fn == nil {
